@@ -44,6 +44,8 @@ const c07Setup = `(do
   (def lp-thread (fn [n] (-> n (+ 1) (lp-thread))))
   (def lp-sleep (fn [n] (do (sleep 7) (lp-sleep (+ n 1)))))
   (def lp-swap (let [a (atom 0)] (fn [n] (do (swap! a (fn [v] (+ v 1))) (lp-swap (+ n 1))))))
+  (def lp-swap-upd (let [st (atom {:n 0})] (fn [k] (do (swap! st update :n (fn [n] (+ n (count @st)))) (lp-swap-upd (+ k 1))))))
+  (def lp-swap-apply (let [st (atom [1 2])] (fn [k] (do (swap! st (fn [v] (apply vector (map (fn [x] (+ x (count @st))) v)))) (lp-swap-apply (+ k 1))))))
   (def lp0 (fn [] (lp0)))
   (def lpx (fn [x] (lpx x)))
   (def pa (fn [x] (pb x)))
@@ -71,10 +73,12 @@ var c07Leaves = []string{"(lp 0)", "(lp-nt 0)", "(mm)", "(lp-cond 0)", "(lp-and 
 	"(do (def bg (future (lp-def 0))) (lp-nt 0))", "(let [bg (future (lp-def 0))] (lp-cond 0))",
 	// a cancelled future is dereferenced (twice) before the program goes on
 	"(let [f (future (lp-sleep 0))] (do (future-cancel f) (try @f (catch e nil)) (try @f (catch e nil)) (lp 0)))",
-	"(let [f (future (lp 0))] (do (sleep 3) (future-cancel f) (try @f (catch e nil)) (lp-sleep 0)))"}
+	"(let [f (future (lp 0))] (do (sleep 3) (future-cancel f) (try @f (catch e nil)) (lp-sleep 0)))",
+	// an update function reached through a builtin reads the atom being swapped
+	"(lp-swap-upd 0)", "(lp-swap-apply 0)"}
 var c07LeafNames = []string{"tail", "nontail", "macro", "cond", "and-or", "thread", "sleep-loop", "sleep", "swap-loop", "apply", "deref-ignoring-body",
 	"tail-noargs", "tail-symbol-arg", "mutual-symbol-arg", "tail-do-atoms", "tail-let-symbol", "tail-if-symbol", "deref-shared-pending",
-	"background-env-writer", "background-env-writer-let", "cancelled-future-deref", "cancelled-future-deref2"}
+	"background-env-writer", "background-env-writer-let", "cancelled-future-deref", "cancelled-future-deref2", "swap-through-builtin-selfread", "swap-selfread-in-map"}
 
 // endless returns an expression that never terminates on its own.
 func (g *c07Gen) endless(depth int, allowTry bool) string {
@@ -289,11 +293,50 @@ func (c07) Run(tp *Tape, opt RunOpt) *RunOut {
 	finallyProbe := ""
 	burst := false
 	dive := false
-	topW := []int{120, 40, 20, 20, 2, 3}
+	nestedProbe := false
+	mustTimeout := false
+	topW := []int{120, 40, 20, 20, 2, 3, 20, 20}
 	if os.Getenv("LISPSIM_C07_BURST") != "" {
-		topW = []int{0, 0, 0, 0, 1, 0} // development aid: only the burst shape
+		topW = []int{0, 0, 0, 0, 1, 0, 0, 0} // development aid: only the burst shape
 	}
 	switch tp.Weighted(LaneWork, topW) {
+	case 6:
+		// a try reached from inside another try's body: the timeout raised in the inner body is caught by the
+		// inner handler, which still gets to run; the outer handler has nothing to do
+		handlerProbe = true
+		nestedProbe = true
+		g.hasTry = true
+		g.kinds = append(g.kinds, "nested-handler-probe")
+		inner := "(try " + g.endless(2, false) + " (catch e (do (trace! :probe-handler) " + strconv.Itoa(tp.Draw(LaneWork, 50)) + ")))"
+		switch tp.Draw(LaneWork, 4) {
+		case 0:
+			src = "(try " + inner + " (catch e2 (do (trace! :outer-handler) 0)))"
+		case 1:
+			src = "(do (def inner-try (fn [] " + inner + ")) (try (inner-try) (catch e2 (do (trace! :outer-handler) 0))))"
+		case 2:
+			src = "(try (let [r " + inner + "] r) (catch e2 (do (trace! :outer-handler) 0)) (finally (trace! :outer-finally)))"
+		case 3:
+			src = "(try (first (map (fn [x] " + inner + ") [1])) (catch e2 (do (trace! :outer-handler) 0)))"
+		}
+	case 7:
+		// the body fails at once with an ordinary error; it is the handler (or the finally body) that is cut short by
+		// the cancellation: what EVAL returns is the timeout error
+		mustTimeout = true
+		g.hasTry = true
+		g.kinds = append(g.kinds, "handler-cut-short")
+		fail := []string{`(throw "disk full")`, "(nth [] 3)", "(throw {:code 7})", "(undefined-symbol-zz)"}[tp.Draw(LaneWork, 4)]
+		switch tp.Draw(LaneWork, 4) {
+		case 0:
+			src = "(try " + fail + " (catch e " + g.endless(1, false) + "))"
+		case 1:
+			src = "(try " + fail + " (catch e " + g.endless(1, false) + ") (finally (trace! :fin)))"
+		case 2:
+			// (a finally body that is cut short is not in this list: by C03 its failure changes neither the result nor
+			// the error of its form, so the body's own error is what comes back)
+			src = "(try (do (trace! :before) " + fail + ") (catch e (do (trace! :handling) " + g.endless(2, false) + ")))"
+		case 3:
+			src = "(do (def handle (fn [e] " + g.endless(1, false) + ")) (try " + fail + " (catch e (handle e))))"
+		}
 	case 5:
 		// a non-tail recursion that is thousands of frames deep when the context ends: the error has that many
 		// frames to unwind through
@@ -361,6 +404,9 @@ func (c07) Run(tp *Tape, opt RunOpt) *RunOut {
 	if dive && steps < 12288 {
 		steps = 12288 + steps%20000
 	}
+	if nestedProbe && steps < 2048 {
+		steps += 2048
+	}
 	if handlerProbe || finallyProbe != "" {
 		w.mode = "deadline"
 		// the handler needs about six evaluation steps; it gets a fifth of the deadline and a step may
@@ -424,6 +470,7 @@ func (c07) Run(tp *Tape, opt RunOpt) *RunOut {
 	var ret *Ev
 	traceH := 0
 	traceF := 0
+	traceOuter := 0
 	var traceHTime []int64
 	for i := range s.Events {
 		ev := &s.Events[i]
@@ -435,6 +482,9 @@ func (c07) Run(tp *Tape, opt RunOpt) *RunOut {
 		}
 		if ev.Kind == "trace" && ev.A == ":probe-finally" {
 			traceF++
+		}
+		if ev.Kind == "trace" && ev.A == ":outer-handler" {
+			traceOuter++
 		}
 	}
 	_ = traceHTime
@@ -477,6 +527,9 @@ func (c07) Run(tp *Tape, opt RunOpt) *RunOut {
 		} else if ret.N&1 == 1 {
 			viol("catchable", "handler-result-lost", "the handler ran but EVAL returned the error "+ret.B)
 		}
+		if nestedProbe && traceOuter != 0 {
+			viol("catchable", "outer-handler-ran-instead", "the timeout raised in the body of the inner try form went past the inner handler: the outer handler ran "+strconv.Itoa(traceOuter)+" time(s), the inner one "+strconv.Itoa(traceH)+" time(s); EVAL returned "+ret.B)
+		}
 		out.Stats["handler_probe_ok"]++
 	case !w.tStarSet:
 		out.Discard = "terminated-before-cancellation"
@@ -514,11 +567,11 @@ func (c07) Run(tp *Tape, opt RunOpt) *RunOut {
 				viol("prompt", "allocation-after-cancel:"+shape, "between the end of its context and EVAL's return the calling thread (the only thread of the run) allocated "+strconv.FormatInt(used, 10)+" bytes; allowance "+strconv.FormatInt(allow, 10)+" (2 MiB + 2 KiB per step after T* + 256 B per step before it: "+strconv.FormatInt(w.stepsAtStar, 10)+" steps)")
 			}
 		}
-		if !g.hasTry {
+		if !g.hasTry || mustTimeout {
 			if !isErr {
-				viol("timeout-error", "value-instead-of-timeout:"+shape, "a try-free non-terminating program returned the value "+ret.B+" after cancellation")
+				viol("timeout-error", "value-instead-of-timeout:"+shape, "a non-terminating program whose timeout no try form can catch returned the value "+ret.B+" after cancellation")
 			} else if !strings.Contains(ret.B, "timeout") {
-				viol("timeout-error", "other-error-instead-of-timeout:"+shape, "a try-free non-terminating program returned "+ret.B+" instead of a timeout error")
+				viol("timeout-error", "other-error-instead-of-timeout:"+shape, "a non-terminating program whose timeout no try form can catch returned "+ret.B+" instead of a timeout error")
 			}
 		}
 		if handlerProbe {
